@@ -580,3 +580,42 @@ def np_percentile(interp, a, q, axis=None, method="linear", interpolation=None):
     frac = pos - lo
     v = V.f_add(srt[lo], V.f_mul(V.f_sub(srt[hi], srt[lo]), frac)) if frac else srt[lo]
     return v
+
+
+def _arg_extreme(interp, a, axis, which):
+    """numpy docs: index of the minimum / maximum of the flattened array, the FIRST one among
+    equal values; NaN counts as the extreme.  Decided by path forks (concrete length)."""
+    a = _a(a)
+    if axis is not None:
+        raise Unsupported("np.arg%s with an axis" % which)
+    flat = T.reshape(a, [-1])
+    n = flat.shape[0]
+    if not isinstance(n, int):
+        raise Unsupported("np.arg%s of a symbolic-length array" % which)
+    if n == 0:
+        raise PyExc("ValueError", ("attempt to get arg%s of an empty sequence" % which,))
+    if n > 12:
+        raise Unsupported("np.arg%s of %d symbolic values" % (which, n))
+    rd = flat.reader()
+    best = 0
+    for j in range(1, n):
+        x, y = rd([j]), rd([best])
+        if flat.dtype == FLOAT:
+            if interp.truth(V.f_isnan(y)):
+                break
+            better = V.b_or(V.f_isnan(x), V.f_lt(x, y) if which == "min" else V.f_lt(y, x))
+        else:
+            better = V.i_lt(x, y) if which == "min" else V.i_lt(y, x)
+        if interp.truth(better):
+            best = j
+    return best
+
+
+@lib("numpy.argmin")
+def np_argmin(interp, a, axis=None, out=None):
+    return _arg_extreme(interp, a, axis, "min")
+
+
+@lib("numpy.argmax")
+def np_argmax(interp, a, axis=None, out=None):
+    return _arg_extreme(interp, a, axis, "max")
